@@ -85,6 +85,30 @@ FileCases(tier) ==
             dirs |-> <<[d |-> "sub", names |-> <<"a.txt", "b.txt">>]>>,
             order |-> a.ord, mode |-> a.mode]]
 
+(* C06N: -filenames runs: command lists x argument lists over a fixed tree   *)
+NameCases(tier) ==
+  LET sl == 47  X == 88  bd == 100
+      withs == {<<WStr(<<X>>)>>, <<WStr(<<ba, bb>>)>>, <<WStr(<<bd>>)>>, <<WStr(<<bd, sl, X>>)>>, <<WStr(<<113, sl, X>>)>>, <<WStr(<<>>)>>,
+                <<WName("value"), WStr(<<X>>)>>, <<WName("filename"), WStr(<<X>>)>>, <<WStr(<<46>>)>>}
+      bodies == {<<Lb>>, <<Lit(<<bc>>)>>, <<In(<<La, Lb>>)>>, <<Lab>>, <<Lit(<<X>>)>>, <<Lit(<<bd, sl>>)>>}
+      repls == {[kind |-> "replace", amt |-> [k |-> "all"], body |-> b, with |-> w] : b \in bodies, w \in withs}
+      finds == {[kind |-> "find", amt |-> [k |-> "all"], body |-> <<Cls("any")>>]}
+      second == {[kind |-> "replace", amt |-> [k |-> "all"], body |-> <<Lit(<<X>>)>>, with |-> <<WStr(<<bc, bc>>)>>],
+                 [kind |-> "replace", amt |-> [k |-> "all"], body |-> <<La>>, with |-> <<WStr(<<X>>)>>],
+                 [kind |-> "find", amt |-> [k |-> "all"], body |-> <<Cls("any")>>],
+                 [kind |-> "replace", amt |-> [k |-> "skip", s |-> 1], body |-> <<Lb>>, with |-> <<WStr(<<121>>)>>]}
+      cmdls == {<<c>> : c \in repls \cup finds} \cup {<<c, d>> : c \in repls \cup finds, d \in second}
+                 \cup {<<c, d, d>> : c \in {r \in repls : r.with = <<WStr(<<X>>)>>}, d \in second}
+      files == <<[path |-> <<ba, bb>>, bytes |-> <<49>>], [path |-> <<ba, bc>>, bytes |-> <<50>>], [path |-> <<bb>>, bytes |-> <<51>>],
+                 [path |-> <<bd, sl, ba, bb>>, bytes |-> <<52>>], [path |-> <<bd, sl, bc>>, bytes |-> <<53>>]>>
+      orders == {<<<<ba, bb>>>>, <<<<ba, bb>>, <<ba, bc>>>>, <<<<bd>>>>, <<<<ba, bb>>, <<bd>>>>, <<<<ba, bb>>, <<ba, bb>>>>, <<<<bd>>, <<bd>>>>,
+                 <<<<bd, sl, ba, bb>>, <<bd>>>>, <<<<bb>>, <<ba, bb>>, <<ba, bc>>>>}
+      All == SetToSeq({[cmds |-> c, order |-> o] : c \in cmdls, o \in orders})
+      keep == IF tier = "quick" THEN 3 ELSE 1
+      nA == Len(All) \div keep
+  IN [i \in 1..nA |-> [id |-> i, defs |-> <<>>, trans |-> <<>>, cmds |-> All[i * keep].cmds, files |-> files, dirs |-> <<<<bd>>>>,
+                        order |-> All[i * keep].order]]
+
 ExprCases(tier) ==
   LET E == SetToSeq(C11_Exprs(tier))
       B == SetToSeq({e \in C11_Exprs(tier) : TypeOf(e, TEnv0) = "b"})
@@ -200,6 +224,7 @@ CasesOf(fam, tier) ==
     [] fam = "C04"  -> AmountCases(C04_BodiesQ, tier) \o LargeAmountCases
     [] fam = "C05"  -> ReplaceCases(tier) \o ReplaceAmountCases(tier) \o LargeAmountCases
     [] fam = "C06"  -> FileCases(tier)
+    [] fam = "C06N" -> NameCases(tier)
     [] fam = "C13"  -> TransparentCases(tier)
     [] fam = "C09"  -> CrashCases(tier)
     [] fam = "C09P" -> ProcessCrashCases(tier)
